@@ -1096,6 +1096,7 @@ var chkDriftFields = []string{"name", "status", "output", "notes", "definition",
 
 type gen struct {
 	rng  *core.Rand
+	seq  int // cycles through the drifted fields so that every field is covered at every seed
 	svcs map[string]svcDef
 	chks map[string]chkDef
 }
@@ -1262,11 +1263,13 @@ func (g *gen) driftOp() *step {
 	case 5, 6:
 		d.Kind = "svc-alter"
 		d.ID = core.Pick(r, append(g.sortedSvcs(), "web"))
-		d.Field = core.Pick(r, svcDriftFields)
+		d.Field = svcDriftFields[g.seq%len(svcDriftFields)]
+		g.seq++
 	case 7, 8:
 		d.Kind = "chk-alter"
 		d.ID = core.Pick(r, append(g.sortedChks(), "mem"))
-		d.Field = core.Pick(r, chkDriftFields)
+		d.Field = chkDriftFields[g.seq%len(chkDriftFields)]
+		g.seq++
 	case 9:
 		d.Kind = core.Pick(r, []string{"node-meta", "node-tagged-addresses"})
 	}
@@ -1274,7 +1277,7 @@ func (g *gen) driftOp() *step {
 }
 
 func genScenario(rng *core.Rand, i int) *scenario {
-	g := &gen{rng: rng, svcs: map[string]svcDef{}, chks: map[string]chkDef{}}
+	g := &gen{rng: rng, seq: i, svcs: map[string]svcDef{}, chks: map[string]chkDef{}}
 	sc := &scenario{Name: fmt.Sprintf("s%d", i)}
 	switch x := rng.Intn(100); {
 	case x < 45:
@@ -1532,7 +1535,7 @@ func TestZZVerifC16(t *testing.T) {
 	run.Floor("output_updates_deferred", core.N(100, 2000))
 	run.Floor("defer_timers_fired", core.N(10, 200))
 	run.FloorDistinct("fault-position-class", 36)
-	run.FloorDistinct("drift", 20)
+	run.FloorDistinct("drift", 15)
 	run.FloorDistinct("local-op", 8)
 	if run.Finish() == 1 {
 		t.Fail()
